@@ -522,6 +522,19 @@ Definition url_shape (url scheme host rest : str) : Prop :=
   url = scheme ++ COLON :: SLASH :: SLASH :: host ++ rest /\
   scheme <> [] /\ ~ In COLON scheme /\ ~ In SLASH host.
 
+(* well-formed ASTs: a literal is never the raw wildcard character (the printer does not escape
+   it: the converter rewrites '*' before printing), groups are not empty, the text is not empty *)
+Definition lit_ok (c : N) : bool := negb (N.eqb c STAR).
+Definition atom_wf (a : atom) : bool :=
+  match a with ALit c => lit_ok c | AAny => true | ANot c => lit_ok c end.
+Definition item_wf (i : item) : bool :=
+  match i with
+  | IAtom a _ => atom_wf a
+  | IOptGroup g => negb (is_nil g) && forallb (fun x => atom_wf (fst x)) g
+  end.
+Definition regex_wf (r : regex) : bool :=
+  forallb item_wf (rx_body r) && negb (is_nil (print_regex r)).
+
 (* carve-out classes (known findings) *)
 (* scheme information lost: `|ws://$~websocket` leaves none of the three scheme bits *)
 Definition scheme_ok (m : N) : bool :=
